@@ -96,6 +96,7 @@ func (c *coalesceOperator) Next(ctx context.Context) ([]model.StepVector, error)
 				}
 			}
 
+			model.VerifYield("coalesce.merge")
 			c.mu.Lock()
 			defer c.mu.Unlock()
 
